@@ -276,3 +276,20 @@ Proof.
   - apply IH in H. destruct H as (H1 & H2). split; [|exact H2]. rewrite H1.
     rewrite Nat2Z.inj_succ. unfold Z.succ. rewrite inject_Z_plus. ring.
 Qed.
+
+Lemma uniform_lines strut children lh n y i yi hi :
+  Forall (fun c => fst c == fst strut /\ snd c == snd strut) children ->
+  line_height_of strut children == snd strut /\
+  (nth_error (stack y (repeat lh n)) i = Some (yi, hi) -> yi == y + inject_Z (Z.of_nat i) * lh /\ hi = lh).
+Proof. intros H. split; [exact (line_height_uniform strut children H) | exact (stack_uniform lh n y i yi hi)]. Qed.
+
+(* ---- the hypotheses are satisfiable *)
+Example ex_center : effective ACenter LAuto false = ACenter /\ 30 < 100 /\ fst (text_align 30 100 ACenter LAuto false true false) == 35.
+Proof. repeat split; reflexivity. Qed.
+Example ex_justify : (0 < count_spaces (I false 0 70 [T 2 0 50 0; A 50 20]))%nat /\
+  box_w (justify_line (I false 0 70 [T 2 0 50 0; A 50 20]) 30) == 100.
+Proof. split; [simpl; lia|vm_compute; reflexivity]. Qed.
+Example ex_stack : stack 5 [10; 12; 10] = [(5, 10); (5 + 10, 12); (5 + 10 + 12, 10)].
+Proof. reflexivity. Qed.
+Example ex_uniform : Forall (fun c => fst c == fst (8, 10) /\ snd c == snd (8, 10)) [(8, 10); (8, 10)].
+Proof. repeat constructor; reflexivity. Qed.
